@@ -42,6 +42,7 @@ type spec struct {
 	stopBlocks                              bool
 	exit                                    string // "sig" | "free" | "never"
 	heldRun, heldStop, heldReload, heldSub  bool
+	heldPoll                                bool
 	neverReady                              bool
 }
 
@@ -60,7 +61,7 @@ type scn struct {
 	rec      *director.Recorder
 	ph       *director.ParkHandler
 	sup      *supervisor.PIDZero
-	pcancel  context.CancelFunc
+	pcancel  func()
 	startupShort, shutdownShort bool
 
 	mu       sync.Mutex
@@ -77,6 +78,31 @@ type scn struct {
 	readySet []bool
 	stopReleased, runReleased []bool
 	out      *bufio.Writer
+}
+
+// envCtx is the parent context of the supervisor: the director ends it either like a cancel() or
+// like an expired deadline (Err() = DeadlineExceeded).
+type envCtx struct {
+	done chan struct{}
+	mu   sync.Mutex
+	err  error
+}
+
+func (e *envCtx) Deadline() (time.Time, bool) { return time.Time{}, false }
+func (e *envCtx) Done() <-chan struct{}       { return e.done }
+func (e *envCtx) Value(any) any               { return nil }
+func (e *envCtx) Err() error {
+	e.mu.Lock()
+	defer e.mu.Unlock()
+	return e.err
+}
+func (e *envCtx) end(err error) {
+	e.mu.Lock()
+	if e.err == nil {
+		e.err = err
+		close(e.done)
+	}
+	e.mu.Unlock()
 }
 
 type customErr struct{ inner error }
@@ -160,6 +186,7 @@ func (s *scn) genSpecs() {
 		sp.heldStop = s.r.Chance(1, 4)
 		sp.heldReload = sp.reloadable && s.r.Chance(1, 3)
 		sp.heldSub = sp.stateable && s.r.Chance(1, 4)
+		sp.heldPoll = sp.stateable && s.r.Chance(1, 4)
 	}
 	switch s.family {
 	case "startup":
@@ -191,6 +218,26 @@ func (s *scn) genSpecs() {
 		}
 	case "sdsender":
 		s.specs[s.r.Intn(n)].ssender = true
+	case "finalstate":
+		// a state monitor that lags behind its runnable when shutdown stores the final state
+		s.specs = make([]spec, 1+s.r.Intn(2))
+		for i := range s.specs {
+			s.specs[i] = spec{exit: "sig", stopBlocks: s.r.Bool()}
+		}
+		s.specs[0].stateable = true
+	case "gatefail":
+		// an earlier runnable fails while the supervisor is inside IsRunning() of a later gate
+		s.specs = make([]spec, 3+s.r.Intn(2))
+		for i := range s.specs {
+			s.specs[i] = spec{exit: "sig", stopBlocks: s.r.Bool()}
+		}
+		s.specs[0].exit = "free"
+		s.specs[0].heldRun = true
+		s.specs[1].stateable = true
+		s.specs[1].heldPoll = true
+		if s.r.Bool() {
+			s.specs[2].stateable = true
+		}
 	}
 	for i := range s.specs {
 		if s.specs[i].exit == "never" {
@@ -218,11 +265,18 @@ func (s *scn) build() error {
 		c := supmock.NewCore(i, s.rec)
 		c.Stateable, c.Reloadable, c.RSender, c.SSender = sp.stateable, sp.reloadable, sp.rsender, sp.ssender
 		c.StopBlocks, c.HeldRun, c.HeldStop, c.HeldReload, c.HeldSub = sp.stopBlocks, sp.heldRun, sp.heldStop, sp.heldReload, sp.heldSub
+		c.HeldPoll = sp.heldPoll
 		s.cores = append(s.cores, c)
 		rs = append(rs, supmock.Wrap(c))
 	}
-	pctx, pc := context.WithCancel(context.Background())
-	s.pcancel = pc
+	pctx := &envCtx{done: make(chan struct{})}
+	s.pcancel = func() {
+		if s.r.Chance(1, 2) {
+			pctx.end(context.Canceled)
+		} else {
+			pctx.end(context.DeadlineExceeded)
+		}
+	}
 	su, sd := time.Hour, time.Hour
 	if s.startupShort {
 		su = 60 * time.Millisecond
@@ -383,6 +437,23 @@ func (s *scn) candidates(phase string) []action {
 		stopCalled := seen[fmt.Sprintf("StopCall %d", i)]
 		if sp.stateable && inRun && !s.readySet[i] && !sp.neverReady {
 			add(fmt.Sprintf("Ready %d", i), 6, func() { s.readySet[i] = true; c.SetReady(true) })
+		}
+		if sp.heldPoll && c.PollPending.Load() {
+			w := 8
+			add(fmt.Sprintf("PollAnswer %d", i), w, func() {
+				ans := s.readySet[i] || (phase == "drain")
+				if !ans && !sp.neverReady && s.r.Chance(1, 3) {
+					ans = true
+					s.readySet[i] = true
+				}
+				select {
+				case c.PollRelease <- ans:
+				case <-time.After(50 * time.Millisecond):
+				}
+			})
+		}
+		if sp.stateable && s.readySet[i] && !sp.heldPoll && phase == "steady" {
+			add(fmt.Sprintf("Unready %d", i), 1, func() { s.readySet[i] = false; c.SetReady(false) })
 		}
 		if sp.stateable && phase != "drain" {
 			add(fmt.Sprintf("Emit %d", i), 3, func() {
@@ -546,6 +617,69 @@ func (s *scn) pick(as []action) action {
 	return as[0]
 }
 
+// preludeGatefail: answer the gate's first k-1 polls with false, then, while the k-th IsRunning()
+// call is pending, let runnable 0 fail, wait until its error is queued, and answer true.
+func (s *scn) preludeGatefail() {
+	c1 := s.cores[1]
+	k := 1 + s.r.Intn(4)
+	for p := 1; p <= k; p++ {
+		deadline := time.Now().Add(3 * time.Second)
+		for !c1.PollPending.Load() && time.Now().Before(deadline) {
+			time.Sleep(200 * time.Microsecond)
+		}
+		if !c1.PollPending.Load() {
+			return
+		}
+		if p < k {
+			select {
+			case c1.PollRelease <- false:
+			case <-time.After(time.Second):
+				return
+			}
+			continue
+		}
+		s.quiesce()
+		s.runReleased[0] = true
+		s.cores[0].RunRelease <- s.mkErr(false)
+		s.quiesce()
+		s.readySet[1] = true
+		select {
+		case c1.PollRelease <- true:
+		case <-time.After(time.Second):
+		}
+		s.quiesce()
+	}
+}
+
+// preludeFinalState: park runnable 0's state monitor (inside its broadcast, on a log record) while
+// the runnable goes Stopping -> Stopped during shutdown, then let it continue.
+func (s *scn) preludeFinalState() {
+	c0 := s.cores[0]
+	s.rec.WaitFor("RunCall 0", 3*time.Second)
+	s.readySet[0] = true
+	c0.SetReady(true)
+	s.quiesce()
+	park := s.ph.ParkOn("State map entry updated")
+	c0.Emit("Running", 2)
+	if !park.WaitReached(2 * time.Second) {
+		park.Release()
+		return
+	}
+	c0.Emit("Stopping", 4)
+	c0.Emit("Stopped", 5)
+	s.shutdownTriggered = true
+	s.apiCall("Shutdown", s.sup.Shutdown)
+	s.rec.WaitFor("StopRet 0", 3*time.Second)
+	time.Sleep(2 * time.Millisecond)
+	park.Release()
+	select {
+	case <-s.runDone:
+	case <-time.After(3 * time.Second):
+	}
+	s.quiesce()
+	s.snap()
+}
+
 func (s *scn) allCallersBack() bool {
 	s.mu.Lock()
 	defer s.mu.Unlock()
@@ -557,6 +691,12 @@ func (s *scn) run() {
 	// let Run() get going before the environment acts (a Shutdown() that overtakes Run()'s first
 	// statement would stop every registered runnable; that ordering is outside the model)
 	s.rec.WaitQuiescent(3 * time.Second)
+	if s.family == "gatefail" {
+		s.preludeGatefail()
+	}
+	if s.family == "finalstate" {
+		s.preludeFinalState()
+	}
 	steps := 6 + s.r.Intn(18)
 	phase := "startup"
 	trigAt := steps * 2 / 3
@@ -621,7 +761,7 @@ func (s *scn) run() {
 		did := false
 		for _, a := range as {
 			switch strings.Fields(a.name)[0] {
-			case "RunRet", "StopRelease", "ReloadRelease", "Ready", "SubRelease":
+			case "RunRet", "StopRelease", "ReloadRelease", "Ready", "SubRelease", "PollAnswer":
 				a.f()
 				did = true
 			}
@@ -704,7 +844,7 @@ func main() {
 		child(*seed, *family)
 		return
 	}
-	fams := []string{"mixed", "startup", "timeout", "state", "reload", "sdsender", "big"}
+	fams := []string{"mixed", "startup", "timeout", "state", "reload", "sdsender", "big", "gatefail", "finalstate"}
 	type job struct {
 		seed uint64
 		fam  string
